@@ -28,7 +28,7 @@ REQUIRED_HITS = ['O6.refusal_after_reservation', 'O6.injected_sign_failure', 'O1
                  'O5.success_when_sufficient', 'O6.checked', 'branch.retry_loop', 'req.pay', 'req.claim_create', 'req.claim_update',
                  'req.support', 'req.purchase', 'req.spend_all', 'req.small_deficit', 'strategy.sqlite', 'strategy.random_draw',
                  'strategy.prefer_confirmed', 'strategy.only_confirmed', 'strategy.branch_and_bound', 'strategy.closest_match',
-                 'strategy.standard', 'after.broadcast', 'after.keep_reserved']
+                 'strategy.standard', 'uclass.round_under_sqlite', 'uclass.liquidation', 'uclass.whale', 'after.broadcast', 'after.keep_reserved']
 DUST = 1000
 
 
@@ -38,7 +38,7 @@ class InjectedFault(Exception):
 
 STRATS = ['sqlite', 'prefer_confirmed', 'only_confirmed', 'standard', 'branch_and_bound', 'closest_match', 'random_draw', None]
 UTXO_CLASSES = ['plain', 'plain', 'dust_heavy', 'exact', 'single_big', 'whale', 'unconfirmed_mix', 'two_accounts', 'tiny_wallet', 'many',
-                'liquidation']
+                'liquidation', 'round']
 
 
 def plan(tier):
@@ -85,6 +85,13 @@ def make_utxos(r, uclass, rate, big):
         # a few coins each worth little more than their own spend fee: liquidating one walks the "no output yet" retry loop, selects
         # and reserves more coins pass by pass, and may still end in a refusal AFTER outputs were reserved (seeded break C03-B)
         am = [spend + r.randrange(1, 56 * rate + 1000) for _ in range(r.randrange(1, 5))]
+    elif uclass == 'round':
+        # what people actually send: 0.01, 0.1, 1, 5, 100 LBC ... - exact powers of ten/hundred (and their neighbours) are where the
+        # range boundaries of the sqlite chooser's amount scan lie (1, 100, 10^4, 10^6, ...; seeded break C03-E returned a coin
+        # sitting exactly on a boundary from two consecutive ranges)
+        am = [r.choice([1, 2, 5]) * 10 ** r.randrange(2, 15) + r.choice([0, 0, 0, 0, 1, -1]) for _ in range(r.randrange(3, 40))]
+        am += [r.randrange(spend + 1, spend * 30) for _ in range(r.randrange(0, 6))]
+        r.shuffle(am)
     else:  # many
         am = [r.randrange(spend + 1, 10 ** 7) for _ in range(r.randrange(100, 240))]
     return am
@@ -102,6 +109,9 @@ async def _run_wallet(rec, case):
     nacc = 2 if uclass == 'two_accounts' or r.random() < 0.15 else 1
     fx = await walletfx.Fx.open(n_accounts=nacc, fee_per_byte=rate, fee_per_name_char=name_fee, strategy=strategy)
     rec.hit('strategy.' + str(strategy or 'standard'))
+    rec.hit('uclass.' + uclass)
+    if uclass == 'round' and strategy == 'sqlite':
+        rec.hit('uclass.round_under_sqlite')
     try:
         ledger = fx.ledger
         amounts = make_utxos(r, uclass, rate, case.get('big'))
